@@ -23,7 +23,7 @@ EXPLANATION = (
     'reset; (i) the JSON text is ASCII-safe for every file encoding.  Value-'
     'level round-trip equality is not decided.')
 FLOORS = {'C05.a': 12, 'C05.b': 1, 'C05.c': 1, 'C05.d': 1, 'C05.e': 1,
-          'C05.f': 2, 'C05.g': 1, 'C05.h': 1, 'C05.i': 1, 'C05.j': 1, 'C05.k': 1, 'C05.l': 5, 'C05.m': 1}
+          'C05.f': 2, 'C05.g': 1, 'C05.h': 1, 'C05.i': 1, 'C05.j': 1, 'C05.k': 1, 'C05.l': 5, 'C05.m': 1, 'C05.n': 1}
 FILES = ['pyglove/core/utils/json_conversion.py', 'pyglove/core/symbolic/base.py',
          'pyglove/core/symbolic/object.py', 'pyglove/core/symbolic/dict.py',
          'pyglove/core/symbolic/list.py', 'pyglove/core/typing/value_specs.py',
@@ -768,6 +768,44 @@ def rule_m(ctx):
          f.loc, "a record with an embedded '\\n' is written as is and read back as several records")
 
 
+def rule_n(ctx):
+  """`_typename_resolved=True` tells from_json that the `_type` names of the
+  whole value were already turned into factories.  Only code that has resolved
+  them may say so: a function that itself calls resolve_typenames (when the
+  flag it received is off), or a factory that resolve_typenames hands the value
+  to.  A class-method entry point (List.from_json, Dict.from_json ...) is
+  reachable with raw JSON and must leave the decision to from_json."""
+  idx = ctx.index
+  rt = idx.func(JC + 'resolve_typenames')
+  factory_names = {n.id for n in ast.walk(rt.node) if isinstance(n, ast.Name)}
+  bad = []
+  n = 0
+  for rel in FILES:
+    m = idx.by_relpath.get(rel)
+    if m is None:
+      continue
+    for f in m.funcs.values():
+      top = f
+      while top.parent is not None:
+        top = top.parent
+      for c in A.calls_in(f.node):
+        for kw in c.keywords:
+          if kw.arg == '_typename_resolved' and A.unparse(kw.value) == 'True':
+            if any(c is x for x in ast.walk(f.node) if isinstance(x, ast.Call)) and any(
+                isinstance(y, (ast.FunctionDef, ast.Lambda)) and y is not f.node and any(c is z for z in ast.walk(y))
+                for y in ast.walk(f.node)):
+              continue     # reported at the nested function itself
+            n += 1
+            resolves = any((A.call_name(x) or '').split('.')[-1] == 'resolve_typenames' for x in A.calls_in(top.node))
+            if not (resolves or top.name in factory_names):
+              bad.append(f'{f.qualname}:{c.lineno}')
+  ctx.ob('C05.n', 'typename-resolved-claims', n >= 4 and not bad,
+         'only code that resolved the type names (or a factory called by the resolver) passes _typename_resolved=True',
+         JC.rstrip('.').replace('.', '/') + '.py:1',
+         '; '.join(bad) + ': this entry point can be reached with raw JSON, whose `_type` strings are then called as '
+         'if they were factories' if bad else f'only {n} claims found')
+
+
 def run(ctx):
   ctx.consult(*FILES, 'pyglove/core/io/sequence.py')
   rule_a(ctx)
@@ -784,4 +822,5 @@ def run(ctx):
   rule_k(ctx)
   rule_l(ctx)
   rule_m(ctx)
+  rule_n(ctx)
   ctx.assume('injectivity of the encoding over the value space and pg.eq after a round trip are not decided')
